@@ -463,6 +463,9 @@ def build_package(ov, unit):
 
 def run_harnesses(ov, harnesses, jobs=None):
     jobs = jobs or max(1, min(NPROC // 2, len(harnesses)))
+    if any(h.attrs.get("heavy") for h in harnesses):
+        # harnesses marked heavy=1 need ~10 GB each in CBMC: keep the total well inside the machine's memory
+        jobs = min(jobs, int(os.environ.get("VERIF_HEAVY_JOBS", "4")))
     results = []
     with cf.ThreadPoolExecutor(max_workers=jobs) as ex:
         futs = {ex.submit(run_harness, ov, h): h for h in harnesses}
